@@ -38,19 +38,19 @@ package sio
 // ---------------------------------------------------------------------------------------------
 // C18: handler registries. view(handlerStore) = the three sequences subs, funcs, funcsOnce.
 //@ func (*handlerStore).on
-//@   modifies e.funcs
+//@   modifies e.funcs, elems(e.funcs)
 //@   ensures len(e.funcs) == old(len(e.funcs)) + 1 && e.funcs[old(len(e.funcs))] == handler [C18.hs.on]
 //@   ensures forall k int :: 0 <= k && k < old(len(e.funcs)) ==> e.funcs[k] == old(e.funcs[k]) [C18.hs.on.keeps]
 //@   ensures e.funcsOnce == old(e.funcsOnce) && e.subs == old(e.subs) [C18.hs.on.frame]
 
 //@ func (*handlerStore).once
-//@   modifies e.funcsOnce
+//@   modifies e.funcsOnce, elems(e.funcsOnce)
 //@   ensures len(e.funcsOnce) == old(len(e.funcsOnce)) + 1 && e.funcsOnce[old(len(e.funcsOnce))] == handler [C18.hs.once]
 //@   ensures forall k int :: 0 <= k && k < old(len(e.funcsOnce)) ==> e.funcsOnce[k] == old(e.funcsOnce[k]) [C18.hs.once.keeps]
 //@   ensures e.funcs == old(e.funcs) && e.subs == old(e.subs) [C18.hs.once.frame]
 
 //@ func (*handlerStore).onSubEvent
-//@   modifies e.subs
+//@   modifies e.subs, elems(e.subs)
 //@   ensures len(e.subs) == old(len(e.subs)) + 1 && e.subs[old(len(e.subs))] == handler [C18.hs.sub]
 //@   ensures forall k int :: 0 <= k && k < old(len(e.subs)) ==> e.subs[k] == old(e.subs[k])
 //@   ensures e.funcs == old(e.funcs) && e.funcsOnce == old(e.funcsOnce)
@@ -118,14 +118,14 @@ package sio
 
 //@ func (*eventHandlerStore).on
 //@   requires esValid(e) && handler != nil
-//@   modifies mapof(e.events)
+//@   modifies mapof(e.events), allelems(*eventHandler)
 //@   ensures len(e.events[eventName]) == old(len(e.events[eventName])) + 1 && e.events[eventName][old(len(e.events[eventName]))] == handler [C18.es.on]
 //@   ensures forall k int :: 0 <= k && k < old(len(e.events[eventName])) ==> e.events[eventName][k] == old(e.events[eventName][k]) [C18.es.on.keeps]
 //@   ensures forall n string :: n != eventName ==> e.events[n] == old(e.events[n]) [C18.es.on.frame]
 
 //@ func (*eventHandlerStore).once
 //@   requires esValid(e) && handler != nil
-//@   modifies mapof(e.eventsOnce)
+//@   modifies mapof(e.eventsOnce), allelems(*eventHandler)
 //@   ensures len(e.eventsOnce[eventName]) == old(len(e.eventsOnce[eventName])) + 1 && e.eventsOnce[eventName][old(len(e.eventsOnce[eventName]))] == handler [C18.es.once]
 //@   ensures forall n string :: n != eventName ==> e.eventsOnce[n] == old(e.eventsOnce[n]) [C18.es.once.frame]
 
@@ -136,7 +136,9 @@ package sio
 //@ func (*eventHandlerStore).off
 //@   opt safety bounds
 //@   requires esValid(e)
-//@   modifies mapof(e.events), mapof(e.eventsOnce)
+//@   modifies mapof(e.events), mapof(e.eventsOnce), allelems(*eventHandler)
+//@   ensures (eventName in e.events) ==> len(e.events[eventName]) > 0 [C18.es.off.noempty.on]
+//@   ensures (eventName in e.eventsOnce) ==> len(e.eventsOnce[eventName]) > 0 [C18.es.off.noempty.once]
 //@   ensures len(handler) == 0 ==> len(e.events[eventName]) == 0 && len(e.eventsOnce[eventName]) == 0 [C18.es.off.all]
 //@   ensures forall n string :: n != eventName ==> e.events[n] == old(e.events[n]) && e.eventsOnce[n] == old(e.eventsOnce[n]) [C18.es.off.frame]
 //@   ensures len(e.events[eventName]) <= old(len(e.events[eventName])) && len(e.eventsOnce[eventName]) <= old(len(e.eventsOnce[eventName])) [C18.es.off.shrinks]
@@ -316,7 +318,7 @@ package sio
 
 //@ func (*eventHandlerStore).offAll
 //@   opt safety off
-//@   modifies mapof(e.events), mapof(e.eventsOnce)
+//@   modifies mapof(e.events), mapof(e.eventsOnce), allelems(*eventHandler)
 
 // ---------------------------------------------------------------------------------------------
 // C03: acknowledgements. The reply path (call) and the timer path exclude each other through the two flags,
@@ -364,24 +366,40 @@ package sio
 //@   opt safety off
 //@   requires header != nil && s.acks != nil
 //@   ghost called int = 0
+//@   ghost decoded int = 0
+//@   ghost vals []reflect.Value = nil
 //@   callsite (*ackHandler).call
 //@     requires !(*header.ID in s.acks) [C03.cli.onack.delete]
 //@     requires recv == old(s.acks[*header.ID]) [C03.cli.onack.handler]
 //@     requires !held(s.acksMu) [C03.cli.onack.unlocked]
+//@     requires decoded == 1 && arr(arg0) == arr(vals) && off(arg0) == off(vals) && len(arg0) == len(vals) [C03.cli.onack.reply.values]
 //@     update called = called + 1
 //@   callsite decode skip   // assumption: decoding the reply's arguments does not touch the socket's ack table
+//@     requires arr(arg0) == arr(ack.inputArgs) && off(arg0) == off(ack.inputArgs) + (ack.hasError ? 1 : 0) && len(arg0) == len(ack.inputArgs) - (ack.hasError ? 1 : 0) [C03.cli.onack.decodes.handler.types]
+//@     update decoded = decoded + 1
+//@     updateafter vals = result0
+//@   callsite Type.Kind
+//@     requires recv == inputArgs[rangeindex] && rangeindex < len(vals) [C03.cli.onack.normalises.aligned]
 //@   ensures called <= 1 [C03.cli.onack.once]
 
 //@ func (*serverSocket).onAck
 //@   opt safety off
 //@   requires header != nil && s.acks != nil
 //@   ghost called int = 0
+//@   ghost decoded int = 0
+//@   ghost vals []reflect.Value = nil
 //@   callsite (*ackHandler).call
 //@     requires !(*header.ID in s.acks) [C03.srv.onack.delete]
 //@     requires recv == old(s.acks[*header.ID]) [C03.srv.onack.handler]
 //@     requires !held(s.acksMu) [C03.srv.onack.unlocked]
+//@     requires decoded == 1 && arr(arg0) == arr(vals) && off(arg0) == off(vals) && len(arg0) == len(vals) [C03.srv.onack.reply.values]
 //@     update called = called + 1
 //@   callsite decode skip   // assumption: decoding the reply's arguments does not touch the socket's ack table
+//@     requires arr(arg0) == arr(ack.inputArgs) && off(arg0) == off(ack.inputArgs) + (ack.hasError ? 1 : 0) && len(arg0) == len(ack.inputArgs) - (ack.hasError ? 1 : 0) [C03.srv.onack.decodes.handler.types]
+//@     update decoded = decoded + 1
+//@     updateafter vals = result0
+//@   callsite Type.Kind
+//@     requires recv == inputArgs[rangeindex] && rangeindex < len(vals) [C03.srv.onack.normalises.aligned]
 //@   ensures called <= 1 [C03.srv.onack.once]
 
 //@ define pmatch(it sendBufferItem, id uint64) bool = it.ackID != nil && *it.ackID == id
@@ -531,14 +549,14 @@ package sio
 //@   callsite Adapter.PersistSession
 //@     requires left == 0 && arg0 != nil && arg0.SID == old(s.id) && arg0.PID == old(s.pid) [C08.persist.before.leave]
 //@     update persisted = persisted + 1
-//@   callsite (*serverSocket).leaveAll
+//@   callsite (*serverSocket).leaveAll skip     // assumption: leaving rooms / the tables does not touch the socket's handler stores
 //@     requires discing == 1 [C06.sio.disconnecting.first]
 //@     requires joinoff [C06.sio.join.disabled.before.leave]
 //@     update left = left + 1
-//@   callsite (*Namespace).remove
+//@   callsite (*Namespace).remove skip
 //@     requires arg0 == s [C06.sio.nsp.remove]
 //@     update nsprem = nsprem + 1
-//@   callsite (*serverConn).remove
+//@   callsite (*serverConn).remove skip
 //@     requires arg0 == s [C06.sio.conn.remove]
 //@     update connrem = connrem + 1
 //@   callsite forEach
@@ -587,6 +605,7 @@ package sio
 //@   requires server != nil && c != nil && nsp != nil
 //@   modifies *
 //@   callsite (*serverSocket).Join skip           // assumption: the adapter's AddAll does not reach into the socket being built
+//@   callsite GenerateBase64ID skip               // assumption: the id generator does not reach into the socket being built
 //@   callsite Encode skip
 //@   callsite (*serverConn).sendBuffers skip
 //@   ensures result1 == nil ==> result0 != nil && result0.recovered == (previousSession != nil) [C12.newsocket.recovered]
@@ -779,10 +798,12 @@ package sio
 //@   ensures forall k SocketID :: k != old(socket.id) ==> (k in s.socketsByID) == old(k in s.socketsByID) && s.socketsByID[k] == old(s.socketsByID[k]) [C05.store.srv.set.frame.id]
 
 //@ func (*serverSocketStore).getByNsp
+//@   pure
 //@   requires s.socketsByNsp != nil
 //@   ensures ok == (nsp in s.socketsByNsp) && (ok ==> socket == s.socketsByNsp[nsp]) [C05.store.srv.get]
 
 //@ func (*serverSocketStore).getByID
+//@   pure
 //@   requires s.socketsByID != nil
 //@   ensures ok == (sid in s.socketsByID) && (ok ==> socket == s.socketsByID[sid]) [C05.store.srv.getid]
 
@@ -797,6 +818,7 @@ package sio
 //@   ensures forall k SocketID :: k != sid ==> (k in s.socketsByID) == old(k in s.socketsByID) && s.socketsByID[k] == old(s.socketsByID[k]) [C05.store.srv.remove.frame.id]
 
 //@ func (*clientSocketStore).get
+//@   pure
 //@   requires s.sockets != nil
 //@   ensures ok == (nsp in s.sockets) && (ok ==> socket == s.sockets[nsp]) [C05.store.cli.get]
 
@@ -813,6 +835,7 @@ package sio
 //@   ensures forall k string :: k != namespace ==> (k in s.sockets) == old(k in s.sockets) && s.sockets[k] == old(s.sockets[k]) [C05.store.cli.remove.frame]
 
 //@ func (*nspStore).get
+//@   pure
 //@   requires s.nsps != nil
 //@   ensures ok == (name in s.nsps) && (ok ==> nsp == s.nsps[name]) [C05.store.nsp.get]
 
@@ -1032,6 +1055,7 @@ package sio
 // critical section (frames of two packets cannot interleave); get hands out everything queued, in order, and leaves the
 // queue empty; the single drainer passes each batch to the Engine.IO socket unchanged, once.
 //@ func (*packetQueue).add
+//@   modifies pq.packets, elems(pq.packets)
 //@   opt safety off
 //@   requires pq != nil
 //@   ghost stores int = 0
@@ -1044,6 +1068,7 @@ package sio
 //@   ensures !held(pq.mu) [C02.pq.add.released]
 
 //@ func (*packetQueue).get
+//@   modifies pq.packets
 //@   opt safety off
 //@   requires pq != nil
 //@   onstore packets
